@@ -164,6 +164,9 @@ type diffTmpl struct {
 }
 
 var c01Templates = []diffTmpl{
+	// a bare local declaration as the very first instruction of a function that is also a jump target: nil on
+	// every iteration
+	{"local function f(k) repeat local v; emit(v, x); v = k; k = k + 1 until k > 2 end; f(1); local function g(k) while true do local w; emit(w); w = y; k = k + 1; if k > 2 then break end end end; g(1); local function h(k) ::top:: local u, u2; emit(u, u2); u, u2 = z, k; k = k + 1; if k <= 2 then goto top end end; h(1)", "num"},
 	// a literal as the object of an assignment target is an error, not a store somewhere else
 	{"local function f() local t = {}; ('abc').k = x; return t end; local function g() local a, t = 1, {}; (10).k = y; return t end; local ok, r = pcall(f); local ok2, r2 = pcall(g); emit(ok, ok or type(r), ok2, ok2 or type(r2)); local t = {}; local ok3 = pcall(function() (nil).k = z end); (t).k = x; emit(ok3, t.k)", "num"},
 	// surplus right-hand expressions are evaluated before any store
@@ -314,7 +317,7 @@ func c01Inputs(kind string) []diffInput {
 
 // C01.tmpl — whole-pipeline differential against R-lua.
 //
-//verif:harness prop=C01 tier=quick bounds="88 program templates organised by compiler special case (multiple assignment shapes, destination kinds, relational/logical contexts, loops, goto, tables, closures, varargs, errors, coercions); inputs: 3 symbolic float64 / 3 symbolic 32-bit integers / 2 values of any scalar type"
+//verif:harness prop=C01 tier=quick bounds="89 program templates organised by compiler special case (multiple assignment shapes, destination kinds, relational/logical contexts, loops, goto, tables, closures, varargs, errors, coercions); inputs: 3 symbolic float64 / 3 symbolic 32-bit integers / 2 values of any scalar type"
 func H_C01_tmpl() {
 	t := c01Templates[VChoice(len(c01Templates))]
 	diffRun(t.src, t.src, c01Inputs(t.kind), Options{})
@@ -392,6 +395,11 @@ func H_C02_tmpl() {
 }
 
 var c03Templates = []diffTmpl{
+	// a retry loop under pcall with no captured variable open in any enclosing frame: each failed activation's
+	// closure keeps its own variable
+	{"hs = {}; function attempt(i) local v = i * 10 + x; hs[i] = function() v = v + 1; return v end; error('again') end; for i = 1, 3 do pcall(attempt, i) end; emit(hs[1](), hs[2](), hs[3](), hs[1]())", "int"},
+	// leaving by a tail call through __call closes the captured variables before the handler's frame takes the registers
+	{"local obj = setmetatable({}, {__call = function(self, p, q) local r, s = p + q, p - q; return r, s end}); local get; local function f() local a, b = x, y; get = function() return a, b end; return obj(10, 20) end; emit(f()); emit(get()); local ud = obj; local function g() local c = z; get = function() c = c + 1; return c end; return ud(c, 1) end; emit(g()); emit(get(), get())", "int"},
 	// closures over the locals of a frame that fails under xpcall while the handler fails too
 	{"local g1, g2; local function body() local a, b = x, y; g1 = function() return a end; g2 = function() b = b + 1; return b end; error('boom') end; local ok = xpcall(body, function(m) error('handler fails too') end); local function reuse(p, q, r) local u, v, w = 91, 92, 93; return u end; reuse(1, 2, 3); local l1, l2, l3 = 5, 6, 7; emit(ok, g1(), g2(), g2(), l1, l2, l3)", "int"},
 	{"local gs = {}; local function deep(n) local v = n + x; gs[#gs + 1] = function() v = v + 1; return v end; if n == 0 then error({}) end; return deep(n - 1) + 1 end; local ok = xpcall(function() return deep(2) end, function(m) local t = nil; return t.field end); local a, b, c, d = 1, 2, 3, 4; emit(ok, gs[1](), gs[2](), gs[3](), gs[1](), a, b, c, d)", "int"},
@@ -435,7 +443,7 @@ var c03Templates = []diffTmpl{
 
 // C03.tmpl — closures and captured variables on every exit path, whole pipeline against R-lua.
 //
-//verif:harness prop=C03 tier=quick bounds="37 closure templates: creation in numeric/generic for, while, repeat, do-blocks and calls; scope left by fall-through, break, goto, return, tail call, caught errors; getfenv/setfenv by function and by level, inheritance of the creator's environment; register-reusing calls before use; inputs symbolic"
+//verif:harness prop=C03 tier=quick bounds="39 closure templates: creation in numeric/generic for, while, repeat, do-blocks and calls; scope left by fall-through, break, goto, return, tail call, caught errors; getfenv/setfenv by function and by level, inheritance of the creator's environment; register-reusing calls before use; inputs symbolic"
 func H_C03_tmpl() {
 	t := c03Templates[VChoice(len(c03Templates))]
 	diffRun(t.src, t.src, c01Inputs(t.kind), Options{})
@@ -443,6 +451,10 @@ func H_C03_tmpl() {
 }
 
 var c04Templates = []diffTmpl{
+	// handlers are selected by a raw look-up in the metatable: a metatable's own __index chain is not followed
+	{"local Base = {__tostring = function() return 'base' end, __unm = function() return 'neg' end, __call = function() return 'called' end}; local Derived = setmetatable({}, {__index = Base}); local o = setmetatable({}, Derived); emit(tostring(o) == 'base', (pcall(function() return -o end)), (pcall(function() return o() end))); local p = setmetatable({}, Base); emit(tostring(p), -p, p())", "num"},
+	// == on the same object is true without consulting __eq; the handler's side effects do not happen
+	{"local n = 0; local mt = {__eq = function(a, b) n = n + 1; return false end}; local a, b = setmetatable({}, mt), setmetatable({}, mt); emit(a == a, a ~= a, a == b, a ~= b, n); if a == a then emit('same') end; emit(n)", "num"},
 	// __newindex chains through tables: each table on the chain is asked raw first, and its own __newindex only for an absent key
 	{"local log = {}; local c = setmetatable({x = 1}, {__newindex = function(t, k, v) log[#log + 1] = k; rawset(t, k, v) end}); local a = setmetatable({}, {__newindex = c}); a.x = x; a.y = y; local key = 'x'; a[key] = z; emit(c.x, c.y, rawget(a, 'x'), rawget(a, 'y'), #log, log[1], log[2])", "num"},
 	{"local c = setmetatable({g = 1}, {__newindex = function(t, k, v) rawset(t, k, 'via-handler') end}); local env = setmetatable({}, {__newindex = c, __index = _G}); local function f() g = x; h = y end; setfenv(f, env); f(); emit(c.g, c.h, rawget(env, 'g'), rawget(env, 'h'))", "num"},
@@ -468,7 +480,7 @@ var c04Templates = []diffTmpl{
 
 // C04.tmpl — metamethod dispatch, whole pipeline against R-lua (manual section 2.8).
 //
-//verif:harness prop=C04 tier=quick bounds="20 metamethod templates: arithmetic/concat left-then-right, __index/__newindex through functions and tables (chains <= 3), __eq identity rule, __lt/__le with fallback, __unm, __call in statement/tail/iterator position, __metatable, missing handlers; inputs symbolic"
+//verif:harness prop=C04 tier=quick bounds="22 metamethod templates: arithmetic/concat left-then-right, __index/__newindex through functions and tables (chains <= 3), __eq identity rule, __lt/__le with fallback, __unm, __call in statement/tail/iterator position, __metatable, missing handlers; inputs symbolic"
 func H_C04_tmpl() {
 	t := c04Templates[VChoice(len(c04Templates))]
 	diffRun(t.src, t.src, c01Inputs(t.kind), Options{})
